@@ -131,7 +131,6 @@ struct Tally {
     axes: usize,
     by_kind: std::collections::BTreeMap<String, usize>,
     points: usize,
-    max_err_q14: f64,
     dup_from: usize,
     nonmono_accepted: usize,
     invalid_malformed_output: usize,
@@ -212,7 +211,13 @@ fn check_tables(t: &mut Tally, c: &AxCase, fv: (i32, i32, i32), segs: Option<&[(
     let src = SrcAxis::of(c);
     let cl = classify(c);
     let j = || json!({"axis": case_json(c), "class": format!("{:?}", cl), "fvar_raw": [fv.0, fv.1, fv.2], "avar_raw": segs, "via": wherefrom, "source": extra});
-    let mut report = |t: &mut Tally, base: &str, desc: String| match key_for(cl, base) {
+    // rows beyond the axis bounds: every failed sub-predicate is one finding; collect and report once
+    let outside_fails: std::cell::RefCell<Vec<String>> = std::cell::RefCell::new(Vec::new());
+    let report = |t: &mut Tally, base: &str, desc: String| match key_for(cl, base) {
+        Some(k) if cl == Class::Outside && !base.starts_with("fvar") => {
+            let _ = k;
+            outside_fails.borrow_mut().push(if base == "normalized-coordinate-differs" { desc } else { base.to_string() });
+        }
         Some(k) => viol(t, &k, desc, j()),
         None => t.invalid_malformed_output += 1,
     };
@@ -287,14 +292,30 @@ fn check_tables(t: &mut Tally, c: &AxCase, fv: (i32, i32, i32), segs: Option<&[(
         let hi = src.norm(u + du) + e;
         t.points += 1;
         let g = src.norm(u);
-        let err = (h - g).abs() / Q14;
-        if err > t.max_err_q14 && h >= lo && h <= hi {
-            t.max_err_q14 = err;
-        }
         if !(h >= lo && h <= hi) {
             report(t, "normalized-coordinate-differs", format!("user {u}: fvar+avar give {h}, the source's own mapping gives {g} (allowed [{lo}, {hi}]) ({wherefrom})"));
             break;
         }
+    }
+    let fails = outside_fails.into_inner();
+    if !fails.is_empty() {
+        let mut rs = c.rows.clone();
+        rs.sort_by(|a, b| a.partial_cmp(b).unwrap());
+        viol(
+            t,
+            "avar-malformed-map-rows-outside-axis-bounds",
+            format!(
+                "axis {}..{}..{} with map rows from user {} to {} ({wherefrom}): avar = {:?}: {}",
+                c.min,
+                c.def,
+                c.max,
+                rs[0].0,
+                rs[rs.len() - 1].0,
+                segq,
+                fails.join("; ")
+            ),
+            j(),
+        );
     }
 }
 
@@ -570,7 +591,7 @@ fn stream_a(rng: &mut Rng, n: usize, id: &mut usize, t: &mut Tally) {
 }
 
 // ---------------------------------------------------------------------------------------------
-// stream B: whole fonts
+// streams B (designspace + UFO) and C (.glyphs): whole fonts
 
 fn glyphs_for(shift: f64) -> Vec<GlyphSrc> {
     vec![GlyphSrc::new(".notdef", 500.0).rect(50.0, 0.0, 450.0, 700.0), GlyphSrc::new("a", 600.0 + shift).uni(0x61).rect(40.0, 0.0, 400.0 + shift, 500.0)]
@@ -582,23 +603,12 @@ struct FontCase {
     instances: Vec<Vec<f64>>,
 }
 
-fn gen_font(rng: &mut Rng) -> FontCase {
-    let na = *rng.pick(&[1usize, 1, 2, 2, 3]);
-    let mut axes = Vec::new();
-    while axes.len() < na {
-        let c = gen_axis(rng);
-        // the designspace front end needs min < max here (point axes are dropped from fvar) and
-        // rejects maps that lack min/default/max rows; those classes are exercised in stream A
-        if c.min == c.max || c.kind == "rows-outside-bounds" && false {
-            continue;
-        }
-        axes.push(c);
-    }
+fn gen_instances(rng: &mut Rng, axes: &[AxCase]) -> Vec<Vec<f64>> {
     let ni = rng.below(4) as usize;
     let mut instances = Vec::new();
     for _ in 0..ni {
         let mut loc = Vec::new();
-        for c in &axes {
+        for c in axes {
             let s = SrcAxis::of(c);
             let (lo, hi) = (s.dmin.min(s.dmax), s.dmin.max(s.dmax));
             let d = match rng.below(5) {
@@ -615,173 +625,311 @@ fn gen_font(rng: &mut Rng) -> FontCase {
         }
         instances.push(loc);
     }
+    instances
+}
+
+fn gen_font(rng: &mut Rng) -> FontCase {
+    let na = *rng.pick(&[1usize, 1, 2, 2, 3]);
+    let mut axes = Vec::new();
+    while axes.len() < na {
+        let c = gen_axis(rng);
+        // point axes are dropped from fvar; they are exercised in stream A
+        if c.min == c.max {
+            continue;
+        }
+        axes.push(c);
+    }
+    let instances = gen_instances(rng, &axes);
     FontCase { axes, instances }
+}
+
+/// past failures and hand-picked boundary sources, always run first
+fn corpus() -> Vec<FontCase> {
+    let ax = |kind, min, def, max, rows: &[(f64, f64)], k| AxCase { kind, min, def, max, rows: rows.to_vec(), default_idx: k };
+    vec![
+        // map rows beyond the axis bounds
+        FontCase { axes: vec![ax("rows-outside-bounds", 300.0, 400.0, 700.0, &[(100.0, 20.0), (300.0, 60.0), (400.0, 80.0), (700.0, 150.0), (900.0, 200.0)], 2)], instances: vec![vec![60.0], vec![150.0]] },
+        // design flat from the axis minimum through the default
+        FontCase { axes: vec![ax("flat-end", 100.0, 400.0, 900.0, &[(100.0, 50.0), (400.0, 50.0), (900.0, 100.0)], 1)], instances: vec![vec![50.0]] },
+        // design flat from the default to the axis maximum
+        FontCase { axes: vec![ax("flat-end", 100.0, 400.0, 900.0, &[(100.0, 10.0), (400.0, 50.0), (900.0, 50.0)], 1)], instances: vec![vec![10.0]] },
+        // many-to-one in the middle, default inside the flat run (ufo2ft #978 shape)
+        FontCase { axes: vec![ax("flat", 100.0, 500.0, 900.0, &[(100.0, 10.0), (400.0, 50.0), (500.0, 50.0), (700.0, 80.0), (900.0, 100.0)], 2)], instances: vec![vec![50.0], vec![100.0]] },
+        // default at either end, non-integer values, rows not in order
+        FontCase { axes: vec![ax("general", 62.5, 62.5, 100.0, &[(100.0, 100.0), (87.5, 89.25), (62.5, 70.0), (75.0, 79.5)], 2), ax("general", -12.0, 0.0, 0.0, &[(-12.0, -30.5), (-6.0, -10.25), (0.0, 0.0)], 2)], instances: vec![vec![70.0, -30.5]] },
+        // rows closer than one F2Dot14 step
+        FontCase { axes: vec![ax("close", 100.0, 400.0, 900.0, &[(100.0, 10.0), (400.0, 50.0), (400.0078125, 60.0), (900.0, 100.0)], 1)], instances: vec![] },
+    ]
 }
 
 const TAGS: [&str; 3] = ["wght", "wdth", "opsz"];
 const NAMES: [&str; 3] = ["Weight", "Width", "Optical Size"];
 
-fn stream_b(rng: &mut Rng, n: usize, id: &mut usize, t: &mut Tally) {
-    for fi in 0..n {
-        let fc = gen_font(rng);
-        let mut d = Design { family: format!("F{fi}"), upem: 1000, ..Default::default() };
-        let srcs: Vec<SrcAxis> = fc.axes.iter().map(SrcAxis::of).collect();
-        for (i, c) in fc.axes.iter().enumerate() {
-            d.axes.push(AxisSrc { name: NAMES[i].into(), tag: TAGS[i].into(), min: c.min, default: c.def, max: c.max, map: c.rows.clone(), hidden: false });
+fn designspace_of(fc: &FontCase, family: &str) -> Design {
+    let mut d = Design { family: family.into(), upem: 1000, ..Default::default() };
+    let srcs: Vec<SrcAxis> = fc.axes.iter().map(SrcAxis::of).collect();
+    for (i, c) in fc.axes.iter().enumerate() {
+        d.axes.push(AxisSrc { name: NAMES[i].into(), tag: TAGS[i].into(), min: c.min, default: c.def, max: c.max, map: c.rows.clone(), hidden: false });
+    }
+    // masters: the default, and one per axis at an end of its design range
+    let defloc: Vec<(String, f64)> = srcs.iter().enumerate().map(|(i, s)| (NAMES[i].to_string(), s.ddef)).collect();
+    d.masters.push(Master { name: "M0".into(), style: "Regular".into(), location: defloc.clone(), glyphs: glyphs_for(0.0), ..Default::default() });
+    for (i, s) in srcs.iter().enumerate() {
+        let far = if s.dmax != s.ddef { s.dmax } else { s.dmin };
+        if far == s.ddef {
+            continue;
         }
-        // masters: the default, and one per axis at an end of its design range
-        let defloc: Vec<(String, f64)> = srcs.iter().enumerate().map(|(i, s)| (NAMES[i].to_string(), s.ddef)).collect();
-        d.masters.push(Master { name: "M0".into(), style: "Regular".into(), location: defloc.clone(), glyphs: glyphs_for(0.0), ..Default::default() });
-        for (i, s) in srcs.iter().enumerate() {
-            let far = if s.dmax != s.ddef { s.dmax } else { s.dmin };
-            if far == s.ddef {
-                continue;
+        let mut loc = defloc.clone();
+        loc[i].1 = far;
+        d.masters.push(Master { name: format!("M{}", i + 1), style: format!("S{}", i + 1), location: loc, glyphs: glyphs_for(40.0 + 10.0 * i as f64), ..Default::default() });
+    }
+    for (k, inst) in fc.instances.iter().enumerate() {
+        d.instances.push(InstanceSrc { family: d.family.clone(), style: format!("I{k}"), postscript: None, location: inst.iter().enumerate().map(|(i, v)| (NAMES[i].to_string(), *v)).collect() });
+    }
+    d
+}
+
+fn gnum(x: f64) -> String {
+    format!("{}", x)
+}
+
+/// A minimal Glyphs 3 source: one axis with an "Axis Mappings" parameter; masters at the design
+/// values of rows lo / k / hi; the origin is the master at row k.
+fn glyphs_source(rows: &[(f64, f64)], lo: usize, k: usize, hi: usize, instances: &[f64]) -> String {
+    let mut s = String::from("{\n.appVersion = \"3436\";\n.formatVersion = 3;\naxes = (\n{\nname = Weight;\ntag = wght;\n}\n);\ncustomParameters = (\n{\nname = \"Axis Mappings\";\nvalue = {\nwght = {\n");
+    for (u, d) in rows {
+        s.push_str(&format!("\"{}\" = {};\n", gnum(*u), gnum(*d)));
+    }
+    s.push_str("};\n};\n},\n{\nname = \"Variable Font Origin\";\nvalue = mk;\n}\n);\nfamilyName = \"C08 Glyphs\";\nfontMaster = (\n");
+    let mut ms: Vec<(String, f64)> = vec![("mk".into(), rows[k].1)];
+    if lo != k {
+        ms.push(("mlo".into(), rows[lo].1));
+    }
+    if hi != k {
+        ms.push(("mhi".into(), rows[hi].1));
+    }
+    for (i, (id, d)) in ms.iter().enumerate() {
+        s.push_str(&format!("{{\naxesValues = (\n{}\n);\nid = {};\nname = \"Master {}\";\n}}{}\n", gnum(*d), id, id, if i + 1 < ms.len() { "," } else { "" }));
+    }
+    s.push_str(");\nglyphs = (\n{\nglyphname = space;\nlayers = (\n");
+    for (i, (id, _)) in ms.iter().enumerate() {
+        s.push_str(&format!("{{\nlayerId = {};\nwidth = {};\n}}{}\n", id, 200 + 50 * i, if i + 1 < ms.len() { "," } else { "" }));
+    }
+    s.push_str(");\nunicode = 32;\n}\n);\ninstances = (\n");
+    for (i, d) in instances.iter().enumerate() {
+        s.push_str(&format!("{{\naxesValues = (\n{}\n);\nname = \"Inst {}\";\n}}{}\n", gnum(*d), i, if i + 1 < instances.len() { "," } else { "" }));
+    }
+    s.push_str(");\nunitsPerEm = 1000;\nversionMajor = 1;\nversionMinor = 1;\n}\n");
+    s
+}
+
+/// One compiled font against its source description. `glyphs_instances`: the Glyphs front end
+/// takes instance locations through design -> normalized -> design -> user.
+#[allow(clippy::too_many_arguments)]
+fn check_font(t: &mut Tally, id: &mut usize, stream: &str, label: String, fc: &FontCase, tags: &[&str], out: Outcome, src_json: serde_json::Value, glyphs_instances: bool) {
+    t.fonts += 1;
+    let all_reportable = fc.axes.iter().all(|c| classify(c) != Class::Invalid);
+    let all_wf = fc.axes.iter().all(well_formed);
+    let bytes = match out {
+        Outcome::Font(b) => b,
+        Outcome::Error(e) => {
+            t.fonts_err += 1;
+            *t.by_kind.entry(format!("{stream}:error:{}", e.chars().take(48).collect::<String>())).or_insert(0) += 1;
+            if all_wf {
+                viol(t, "compile-error-on-wellformed-axes", format!("fontc rejects a source with well-formed axis maps: {e}"), src_json);
             }
-            let mut loc = defloc.clone();
-            loc[i].1 = far;
-            d.masters.push(Master { name: format!("M{}", i + 1), style: format!("S{}", i + 1), location: loc, glyphs: glyphs_for(40.0 + 10.0 * i as f64), ..Default::default() });
+            return;
         }
+        Outcome::Panic(p) => {
+            let key = if all_reportable { "compile-panic" } else { "compile-panic-invalid-source" };
+            viol(t, key, format!("fontc panicked: {p}"), src_json);
+            return;
+        }
+    };
+    if fc.axes.iter().any(|c| c.kind == "nonmonotone") {
+        t.nonmono_accepted += 1;
+    }
+    let font = match FontRef::new(&bytes) {
+        Ok(f) => f,
+        Err(e) => {
+            viol(t, "font-unreadable", format!("{e}"), src_json);
+            return;
+        }
+    };
+    let fvar = match font.fvar() {
+        Ok(f) => f,
+        Err(e) => {
+            viol(t, "fvar-missing", format!("variable source but no fvar: {e}"), src_json);
+            return;
+        }
+    };
+    let fax = fvar.axes().unwrap();
+    if fax.len() != fc.axes.len() {
+        viol(t, "fvar-axis-count", format!("{} axes in fvar, {} in the source", fax.len(), fc.axes.len()), src_json);
+        return;
+    }
+    let srcs: Vec<SrcAxis> = fc.axes.iter().map(SrcAxis::of).collect();
+    let avar = font.avar().ok();
+    let mut coq_parts: Vec<String> = Vec::new();
+    let mut all_segs: Vec<Option<Vec<(i16, i16)>>> = Vec::new();
+    for (i, c) in fc.axes.iter().enumerate() {
+        let a = &fax[i];
+        if a.axis_tag().to_string() != tags[i] {
+            viol(t, "fvar-axis-order", format!("axis {i} is {} not {}", a.axis_tag(), tags[i]), src_json.clone());
+        }
+        let fv = (a.min_value().to_bits(), a.default_value().to_bits(), a.max_value().to_bits());
+        let segs: Option<Vec<(i16, i16)>> = avar.as_ref().and_then(|av| {
+            av.axis_segment_maps().iter().nth(i).and_then(|m| m.ok()).map(|m| m.axis_value_maps().iter().map(|r| (r.from_coordinate().to_bits(), r.to_coordinate().to_bits())).collect())
+        });
+        if avar.is_some() && segs.is_none() {
+            viol(t, "avar-axis-record-missing", format!("avar present but no segment map for axis {i}"), src_json.clone());
+        }
+        check_tables(t, c, fv, segs.as_deref(), &format!("compiled font, {stream}"), &src_json);
+        *t.by_kind.entry(format!("{stream}:{}", c.kind)).or_insert(0) += 1;
+        t.axes += 1;
+        coq_parts.push(format!(
+            "match {} with Some a => fvar_agrees a ({}, {}, {}) && {} | None => false end",
+            coq_axis(c),
+            coq_z(fv.0 as i64),
+            coq_z(fv.1 as i64),
+            coq_z(fv.2 as i64),
+            match &segs {
+                Some(s) => format!("segmap_agrees a {}", coq_zpts(s)),
+                None => "segmap_identity_z a".to_string(),
+            }
+        ));
+        all_segs.push(segs);
+    }
+    // the real consumer: skrifa's own fvar+avar normalisation against the source mapping
+    if all_wf {
+        let axes = font.axes();
+        'pts: for (i, c) in fc.axes.iter().enumerate() {
+            let s = &srcs[i];
+            let mut us: Vec<f64> = s.rows.iter().map(|p| p.0).collect();
+            us.sort_by(|a, b| a.partial_cmp(b).unwrap());
+            us.push(c.def);
+            let more: Vec<f64> = us.windows(2).map(|w| (w[0] + w[1]) / 2.0).collect();
+            us.extend(more);
+            let side = (c.def - c.min).max(c.max - c.def);
+            let du = 2.0 * Q14 * side + 1.0 / 16384.0;
+            for u in us {
+                if !(u >= c.min && u <= c.max) {
+                    continue;
+                }
+                let loc = axes.location([(tags[i], u as f32)]);
+                let h = loc.coords()[i].to_f32() as f64;
+                let (lo, hi) = (s.norm(u - du) - 2.0 * Q14, s.norm(u + du) + 2.0 * Q14);
+                t.skrifa_points += 1;
+                if !(h >= lo && h <= hi) {
+                    viol(t, "normalized-coordinate-differs-skrifa", format!("axis {} user {u}: skrifa normalises to {h}, the source's own mapping gives {} (allowed [{lo}, {hi}])", tags[i], s.norm(u)), src_json.clone());
+                    break 'pts;
+                }
+            }
+        }
+    }
+    // (4) named instances
+    let insts = fvar.instances().unwrap();
+    let mut inst_terms: Vec<String> = Vec::new();
+    if insts.len() != fc.instances.len() {
+        viol(t, "fvar-instance-count", format!("{} instances in fvar, {} in the source", insts.len(), fc.instances.len()), src_json.clone());
+    } else {
         for (k, inst) in fc.instances.iter().enumerate() {
-            d.instances.push(InstanceSrc { family: d.family.clone(), style: format!("I{k}"), postscript: None, location: inst.iter().enumerate().map(|(i, v)| (NAMES[i].to_string(), *v)).collect() });
+            let rec = insts.get(k).unwrap();
+            for (i, c) in fc.axes.iter().enumerate() {
+                let raw = rec.coordinates[i].get().to_bits();
+                let a = &fax[i];
+                t.instances += 1;
+                let s = &srcs[i];
+                let in_src_range = inst[i] >= s.dmin.min(s.dmax) && inst[i] <= s.dmin.max(s.dmax);
+                if in_src_range && well_formed(c) && !(raw >= a.min_value().to_bits() && raw <= a.max_value().to_bits()) {
+                    viol(
+                        t,
+                        "instance-outside-axis-range",
+                        format!("instance {k} axis {}: coordinate {} outside fvar range [{}, {}] although its design location {} lies in the axis' design range", tags[i], raw as f64 / 65536.0, a.min_value(), a.max_value(), inst[i]),
+                        src_json.clone(),
+                    );
+                }
+                let conv = if glyphs_instances { format!("(norm_to_user (aconv a) (design_to_norm (aconv a) {}))", coq_q(inst[i])) } else { format!("(design_to_user (aconv a) {})", coq_q(inst[i])) };
+                inst_terms.push(format!("match {} with Some a => near16u {} {} | None => false end", coq_axis(c), conv, coq_z(raw as i64)));
+            }
         }
+    }
+    let mut coq = coq_parts.join(" && ");
+    for it in inst_terms {
+        coq.push_str(" && ");
+        coq.push_str(&it);
+    }
+    let nontrivial = all_segs.iter().any(|s| s.as_ref().is_some_and(|s| s.iter().any(|p| p.0 != p.1)));
+    emit_case(*id, &format!("{stream}:font"), coq, None, nontrivial, format!("{label}:{:?}", fc.axes), json!({"axes": fc.axes.iter().map(case_json).collect::<Vec<_>>(), "instances": fc.instances, "impl_avar": all_segs}));
+    *id += 1;
+}
+
+fn stream_b(rng: &mut Rng, n: usize, id: &mut usize, t: &mut Tally) {
+    let fixed = corpus();
+    let nfixed = fixed.len();
+    let mut it = fixed.into_iter();
+    for fi in 0..n + nfixed {
+        let fc = match it.next() {
+            Some(f) => f,
+            None => gen_font(rng),
+        };
+        let d = designspace_of(&fc, &format!("F{fi}"));
         let dir = scratch_dir("c08");
         let path = d.write_designspace(dir.path());
         let out = compile_path(&path, None, None);
-        t.fonts += 1;
-        let src_json = json!({"designspace": d.designspace_xml(), "axes": fc.axes.iter().map(case_json).collect::<Vec<_>>(), "instances": fc.instances});
-        let all_wf = fc.axes.iter().all(well_formed);
-        let bytes = match out {
-            Outcome::Font(b) => b,
-            Outcome::Error(e) => {
-                t.fonts_err += 1;
-                *t.by_kind.entry(format!("B:error:{}", e.split(':').next().unwrap_or("").chars().take(40).collect::<String>())).or_insert(0) += 1;
-                if all_wf {
-                    viol(t, "compile-error-on-wellformed-axes", format!("fontc rejects a source with well-formed axis maps: {e}"), src_json);
-                }
-                continue;
-            }
-            Outcome::Panic(p) => {
-                let key = if all_wf { "compile-panic" } else { "compile-panic-malformed-source" };
-                viol(t, key, format!("fontc panicked: {p}"), src_json);
-                continue;
-            }
-        };
-        if fc.axes.iter().any(|c| c.kind == "nonmonotone") {
-            t.nonmono_accepted += 1;
-        }
-        let font = match FontRef::new(&bytes) {
-            Ok(f) => f,
-            Err(e) => {
-                viol(t, "font-unreadable", format!("{e}"), src_json);
-                continue;
-            }
-        };
-        let fvar = match font.fvar() {
-            Ok(f) => f,
-            Err(e) => {
-                viol(t, "fvar-missing", format!("variable source but no fvar: {e}"), src_json);
-                continue;
-            }
-        };
-        let fax = fvar.axes().unwrap();
-        if fax.len() != fc.axes.len() {
-            viol(t, "fvar-axis-count", format!("{} axes in fvar, {} in the source", fax.len(), fc.axes.len()), src_json);
+        let src_json = json!({"designspace": d.designspace_xml(), "masters": d.masters.iter().map(|m| json!({"name": m.name, "location": m.location})).collect::<Vec<_>>(), "axes": fc.axes.iter().map(case_json).collect::<Vec<_>>(), "instances": fc.instances});
+        check_font(t, id, "B", format!("ds{fi}"), &fc, &TAGS, out, src_json, false);
+    }
+}
+
+fn stream_c(rng: &mut Rng, n: usize, id: &mut usize, t: &mut Tally) {
+    let mut done = 0;
+    let mut guard = 0;
+    while done < n && guard < n * 50 + 50 {
+        guard += 1;
+        let mut c = gen_axis(rng);
+        if c.rows.len() < 2 || c.kind == "nonmonotone" {
             continue;
         }
-        let avar = font.avar().ok();
-        let mut coq_parts: Vec<String> = Vec::new();
-        let mut all_segs: Vec<Option<Vec<(i16, i16)>>> = Vec::new();
-        for (i, c) in fc.axes.iter().enumerate() {
-            let a = &fax[i];
-            if a.axis_tag().to_string() != TAGS[i] {
-                viol(t, "fvar-axis-order", format!("axis {i} is {} not {}", a.axis_tag(), TAGS[i]), src_json.clone());
-            }
-            let fv = (a.min_value().to_bits(), a.default_value().to_bits(), a.max_value().to_bits());
-            let segs: Option<Vec<(i16, i16)>> = avar.as_ref().and_then(|av| {
-                av.axis_segment_maps().iter().nth(i).and_then(|m| m.ok()).map(|m| m.axis_value_maps().iter().map(|r| (r.from_coordinate().to_bits(), r.to_coordinate().to_bits())).collect())
-            });
-            if avar.is_some() && segs.is_none() {
-                viol(t, "avar-axis-record-missing", format!("avar present but no segment map for axis {i}"), src_json.clone());
-            }
-            check_tables(t, c, fv, segs.as_deref(), "compiled font", &src_json);
-            *t.by_kind.entry(format!("B:{}", c.kind)).or_insert(0) += 1;
-            t.axes += 1;
-            coq_parts.push(format!(
-                "match {} with Some a => fvar_agrees a ({}, {}, {}) && {} | None => false end",
-                coq_axis(c),
-                coq_z(fv.0 as i64),
-                coq_z(fv.1 as i64),
-                coq_z(fv.2 as i64),
-                match &segs {
-                    Some(s) => format!("segmap_agrees a {}", coq_zpts(s)),
-                    None => "segmap_identity_z a".to_string(),
-                }
-            ));
-            all_segs.push(segs);
+        let mut rows = c.rows.clone();
+        rows.sort_by(|a, b| a.partial_cmp(b).unwrap());
+        let nr = rows.len();
+        // masters sit on rows whose design value is unique (the front end finds the user bounds by design value)
+        let uniq: Vec<usize> = (0..nr).filter(|&i| rows.iter().filter(|r| r.1 == rows[i].1).count() == 1).collect();
+        if uniq.len() < 2 {
+            continue;
         }
-        // the real consumer: skrifa's own fvar+avar normalisation against the source mapping
-        if all_wf {
-            let axes = font.axes();
-            'pts: for (i, c) in fc.axes.iter().enumerate() {
-                let s = &srcs[i];
-                let mut us: Vec<f64> = s.rows.iter().map(|p| p.0).collect();
-                us.push(c.def);
-                let more: Vec<f64> = us.windows(2).map(|w| (w[0] + w[1]) / 2.0).collect();
-                us.extend(more);
-                let side = (c.def - c.min).max(c.max - c.def);
-                let du = 2.0 * Q14 * side + 1.0 / 16384.0;
-                for u in us {
-                    if !(u >= c.min && u <= c.max) {
-                        continue;
-                    }
-                    let loc = axes.location([(TAGS[i], u as f32)]);
-                    let h = loc.coords()[i].to_f32() as f64;
-                    let (lo, hi) = (s.norm(u - du) - 2.0 * Q14, s.norm(u + du) + 2.0 * Q14);
-                    t.skrifa_points += 1;
-                    if !(h >= lo && h <= hi) {
-                        viol(t, "normalized-coordinate-differs-skrifa", format!("axis {} user {u}: skrifa normalises to {h}, the source's own mapping gives {} (allowed [{lo}, {hi}])", TAGS[i], s.norm(u)), src_json.clone());
-                        break 'pts;
-                    }
-                }
+        // mostly the full range; sometimes masters inside the mapped range
+        let (lo, hi) = if rng.chance(3, 4) && uniq[0] == 0 && uniq[uniq.len() - 1] == nr - 1 { (0, nr - 1) } else { (uniq[0], uniq[uniq.len() - 1]) };
+        let inner: Vec<usize> = uniq.iter().cloned().filter(|&i| i >= lo && i <= hi).collect();
+        let k = *rng.pick(&inner);
+        if rows.iter().all(|r| r.0 == r.1) {
+            continue; // identity mappings are dropped by the front end ("unmapped")
+        }
+        c.rows = rows.clone();
+        c.default_idx = k;
+        c.min = rows[lo].0;
+        c.def = rows[k].0;
+        c.max = rows[hi].0;
+        if lo != 0 || hi != nr - 1 {
+            c.kind = "rows-outside-bounds";
+        }
+        let mut insts: Vec<f64> = vec![];
+        if rng.chance(1, 2) {
+            insts.push(rows[k].1);
+            if lo != k {
+                insts.push(rows[lo].1);
             }
         }
-        // (4) named instances
-        let insts = fvar.instances().unwrap();
-        let mut inst_terms: Vec<String> = Vec::new();
-        if insts.len() != fc.instances.len() {
-            viol(t, "fvar-instance-count", format!("{} instances in fvar, {} in the source", insts.len(), fc.instances.len()), src_json.clone());
-        } else {
-            for (k, inst) in fc.instances.iter().enumerate() {
-                let rec = insts.get(k).unwrap();
-                for (i, c) in fc.axes.iter().enumerate() {
-                    let raw = rec.coordinates[i].get().to_bits();
-                    let a = &fax[i];
-                    t.instances += 1;
-                    let s = &srcs[i];
-                    let in_src_range = inst[i] >= s.dmin.min(s.dmax) && inst[i] <= s.dmin.max(s.dmax);
-                    if in_src_range && well_formed(c) && !(raw >= a.min_value().to_bits() && raw <= a.max_value().to_bits()) {
-                        viol(
-                            t,
-                            "instance-outside-axis-range",
-                            format!("instance {k} axis {}: coordinate {} outside fvar range [{}, {}] although its design location {} lies in the axis' design range", TAGS[i], raw as f64 / 65536.0, a.min_value(), a.max_value(), inst[i]),
-                            src_json.clone(),
-                        );
-                    }
-                    inst_terms.push(format!("match {} with Some a => near16 (design_to_user (aconv a) {}) {} | None => false end", coq_axis(c), coq_q(inst[i]), coq_z(raw as i64)));
-                }
-            }
-        }
-        let mut coq = coq_parts.join(" && ");
-        if avar.is_none() {
-            // model: no avar table iff every quantised map is an identity (already part of coq_parts)
-        }
-        for it in inst_terms {
-            coq.push_str(" && ");
-            coq.push_str(&it);
-        }
-        let nontrivial = all_segs.iter().any(|s| s.as_ref().is_some_and(|s| s.iter().any(|p| p.0 != p.1)));
-        emit_case(*id, "B:font", coq, None, nontrivial, format!("font{fi}:{:?}", fc.axes), json!({"axes": fc.axes.iter().map(case_json).collect::<Vec<_>>(), "instances": fc.instances, "impl_avar": all_segs}));
-        *id += 1;
+        let text = glyphs_source(&rows, lo, k, hi, &insts);
+        let dir = scratch_dir("c08g");
+        let path = dir.path().join("C08.glyphs");
+        std::fs::write(&path, &text).unwrap();
+        let out = compile_path(&path, None, None);
+        let fc = FontCase { axes: vec![c], instances: insts.iter().map(|d| vec![*d]).collect() };
+        let src_json = json!({"glyphs_source": text, "axes": fc.axes.iter().map(case_json).collect::<Vec<_>>(), "instances": fc.instances});
+        check_font(t, id, "C", format!("glyphs{done}"), &fc, &["wght"], out, src_json, true);
+        done += 1;
     }
 }
 
@@ -791,18 +939,22 @@ fn main() {
     let seed = arg_val(args, "--seed", 1);
     let n = arg_val(args, "--n", 300) as usize;
     let nf = arg_val(args, "--fonts", 20) as usize;
+    let ng = arg_val(args, "--glyphs", 10) as usize;
     if std::env::var("VH_LOUD").is_err() {
         quiet_panics();
     }
     let mut rng = Rng::new(seed);
     let mut t = Tally::default();
     let mut id = 0usize;
-    stream_a(&mut rng, n, &mut id, &mut t);
+    // whole fonts first, so that the first recorded instance of a violation key carries a full source
     stream_b(&mut rng, nf, &mut id, &mut t);
+    stream_c(&mut rng, ng, &mut id, &mut t);
+    stream_a(&mut rng, n, &mut id, &mut t);
     emit_stat(json!({
         "axes": t.axes, "axis_kinds": t.by_kind, "user_points_checked": t.points, "skrifa_points_checked": t.skrifa_points,
-        "max_error_in_f2dot14_units_within_bracket": t.max_err_q14, "maps_with_duplicate_from_after_quantisation": t.dup_from,
-        "nonmonotone_sources_accepted_without_error": t.nonmono_accepted, "failed_subpredicates_on_invalid_sources_not_reported": t.invalid_malformed_output, "fonts_compiled": t.fonts, "fonts_rejected": t.fonts_err,
+        "maps_with_duplicate_from_after_quantisation": t.dup_from,
+        "nonmonotone_sources_accepted_without_error": t.nonmono_accepted, "failed_subpredicates_on_invalid_sources_not_reported": t.invalid_malformed_output,
+        "fonts_compiled": t.fonts, "fonts_rejected": t.fonts_err,
         "instance_coordinates": t.instances, "violations_by_key": t.viol, "extra_evaluations": t.points + t.skrifa_points
     }));
 }
